@@ -54,6 +54,15 @@ def observe_reduce(fx, np, props, fn, route, t, codes, shape, axis=None, offset=
         row['route'] = route + '.' + fn + ('' if via == 'direct' else '/' + via)
         Y = (derived(fx, np, t2, codes2, shape2, via if via in ('T', 'slice') else 'direct')) if t2 else None
         npr = route == 'np'
+        # the RESULT of an earlier reduction of the same operand is reconfigured: the operand itself was never touched
+        try:
+            r0 = X.max() if len(codes) % 2 else np.sum(X, axis=0)
+            r0.config.op_sizing = 'same'
+            r0.config.overflow = 'wrap'
+            r0.config.rounding = 'ceil'
+            r0.config.op_method = 'repr'
+        except Exception:
+            pass
         kw = {} if axis is None else {'axis': (axis - len(shape)) if (len(codes) + t[1]) % 2 else axis}       # the same axis spelled negatively half of the time
         if fn in ('sum', 'cumsum', 'prod', 'cumprod', 'max', 'min'):
             Z = getattr(np, fn)(X, **kw) if npr else getattr(X, fn)(**kw)
